@@ -180,6 +180,12 @@ A9 == E("A9", "args",
         dFD("s", <<dA("x", VS("k"))>>, <<Skip(VVar("s"))>>, <<>>), dFA("l", "li", <<dA("x", VL(<<VVar("a")>>))>>, <<>>)>>),
   << <<>>, <<V("a", VI(5)), V("s", VB(TRUE))>> >>)
 
+\* equal literals in two places (extraction shares one variable between them)
+A10 == E("A10", "args",
+  dQ(<<dF("s", <<dA("x", VS("same"))>>, <<>>), dFA("s2", "s", <<dA("x", VS("same"))>>, <<>>),
+       dF("i", <<dA("x", VI(1))>>, <<>>), dFA("i2", "i", <<dA("x", VI(1))>>, <<>>), dFA("f1", "f", <<dA("x", VI(1))>>, <<>>)>>),
+  <<<<>>>>)
+
 ----------------------------------------------------------------------------
 \* S3 "nest"
 N1 == E("N1", "nest",
@@ -218,6 +224,6 @@ N6 == E("N6", "nest",
   <<<<>>>>)
 
 Corpus == <<P1, P2, P3, P4, P5, P6, P7, P8, P9, P10, P11, P12, P13, P14,
-            A1, A2, A3, A4, A5, A6, A7, A8, A9,
+            A1, A2, A3, A4, A5, A6, A7, A8, A9, A10,
             N1, N2, N3, N4, N5, N6>>
 =============================================================================
